@@ -152,7 +152,13 @@ func (r *rng) sgr() string {
 		case 9:
 			s += fmt.Sprintf("%s;5;%d", r.pick("38", "48"), r.n(256))
 		case 10:
-			s += fmt.Sprintf("%s;2;%d;%d;%d", r.pick("38", "48"), r.n(256), r.n(256), r.n(256))
+			if r.chance(1, 3) {
+				// RGB values whose 24 bits coincide with the internal encodings of the default colour (0x100),
+				// the bright colours (0x200..0x207) and the indexed colours (0..255): only the type bit tells them apart
+				s += fmt.Sprintf("%s;2;0;%d;%d", r.pick("38", "48"), r.n(3), []int{0, 0, 1, 2, 5, 7, 255}[r.n(7)])
+			} else {
+				s += fmt.Sprintf("%s;2;%d;%d;%d", r.pick("38", "48"), r.n(256), r.n(256), r.n(256))
+			}
 		case 11:
 			s += r.pick("38", "48", "38;5", "48;2", "38;2;1", "48;2;1;2", "38;9;1")
 		default:
@@ -219,6 +225,16 @@ func (r *rng) item(p profile, w, h int) (int, string) {
 	case kOtherC0:
 		return kind, r.pick("\x07", "\x00", "\x0b", "\x05", "\x01", "\x1a", "\x0e", "\x0f")
 	case kCsiMove:
+		if r.chance(1, 14) {
+			// save, move, a round trip through the other buffer, move, restore: the slot of CSI s / CSI u is per buffer
+			// and nothing but CSI s writes it
+			mv := func() string { return fmt.Sprintf("\x1b[%d;%dH", 1+r.n(h), 1+r.n(w)) }
+			s := "\x1b[s" + mv() + r.pick("\x1b[?1049h", "\x1b[?1049h", "\x1b[?1049l")
+			if r.chance(1, 2) {
+				s += mv()
+			}
+			return kind, s + r.pick("\x1b[?1049l", "\x1b[?1049l", "\x1b[?1049h") + mv() + "\x1b[u"
+		}
 		if r.chance(1, 7) {
 			// park the cursor (and often the saved cursor) near the far corner: what a later shrink has to bring back in
 			s := fmt.Sprintf("\x1b[%d;%dH", maxInt(1, h-r.n(2)), maxInt(1, w-r.n(2)))
@@ -633,7 +649,7 @@ var profiles = map[string]profile{
 	"hostile":   {wide: true, cutAny: true, maxItems: 16, mask: 1<<1 | 1<<2, weights: weights(kText, 20, kC0Move, 6, kOtherC0, 4, kCsiMove, 10, kErase, 8, kScroll, 8, kMargins, 4, kSgr, 6, kMode, 4, kAltScr, 2, kQuery, 2, kKbd, 2, kString, 6, kResize, 8, kHostile, 25)},
 	"stepall":   {wide: true, step: true, prefill: true, maxItems: 12, weights: allKinds},
 	"c03":       {wide: true, step: true, prefill: true, maxItems: 12, weights: weights(kText, 55, kC0Move, 8, kCsiMove, 20, kSgr, 6, kMode, 8, kMargins, 3)},
-	"c04":       {wide: true, step: true, prefill: true, maxItems: 12, weights: weights(kText, 10, kC0Move, 30, kCsiMove, 45, kMargins, 10, kMode, 5)},
+	"c04":       {wide: true, step: true, prefill: true, maxItems: 12, weights: weights(kText, 10, kC0Move, 30, kCsiMove, 45, kMargins, 10, kMode, 5, kAltScr, 4)},
 	"c05":       {wide: true, step: true, prefill: true, maxItems: 12, weights: weights(kText, 14, kCsiMove, 20, kErase, 42, kSgr, 12, kC0Move, 5, kMargins, 7, kScroll, 8)},
 	"c06":       {wide: true, step: true, prefill: true, maxItems: 12, weights: weights(kText, 12, kCsiMove, 12, kScroll, 38, kMargins, 12, kC0Move, 12, kSgr, 8, kErase, 10)},
 	"c07":       {wide: true, step: true, prefill: true, maxItems: 12, weights: weights(kText, 25, kSgr, 45, kErase, 15, kCsiMove, 10, kScroll, 5)},
